@@ -232,6 +232,9 @@ func GenSched(r *sim.Rng, thorough bool) sim.SchedParams {
 		p.SegMode = 1
 	}
 	p.PermuteMap = r.Bool(0.6)
+	if r.Bool(0.35) {
+		p.YieldUnlock = []float64{0.05, 0.15, 0.4}[r.Intn(3)]
+	}
 	p.MaxSteps = 60000
 	p.MaxSimSec = 3600
 	return p
